@@ -280,14 +280,18 @@ def run_query(ctx, docs, graph, qpairs, mode, form, case, shared=None):
             params.setdefault(k, []).append((a, v))
         q_str = " ".join("%s(%s)" % ({"Doc": "doc", "Sec": "sec", "Prop": "prop"}[k],
                                      ", ".join("%s:%s" % (a, "[%s]" % ", ".join(v) if a == "value" else v) for a, v in lst))
-                         for k, lst in params.items())
+                         for k, lst in (reversed(list(params.items())) if case.get("kind_order") == "reversed" else params.items()))
         all_pairs = list(qpairs)
     else:
         attrs, terms = qpairs
         params = {k: list(v) for k, v in attrs.items()}
         params["Search"] = list(terms)
-        q_str = "FIND " + " ".join("%s(%s)" % ({"Doc": "doc", "Sec": "sec", "Prop": "prop"}[k], ", ".join(v))
-                                   for k, v in attrs.items()) + " HAVING " + ", ".join(terms)
+        # (the kinds appear in the order the query lists them, which need not be Document - Section - Property)
+        korder = list(attrs)
+        if case.get("kind_order") == "reversed":
+            korder.reverse()
+        q_str = "FIND " + " ".join("%s(%s)" % ({"Doc": "doc", "Sec": "sec", "Prop": "prop"}[k], ", ".join(attrs[k]))
+                                   for k in korder) + " HAVING " + ", ".join(terms)
         all_pairs = [(k, a, t) for k in ("Doc", "Sec", "Prop") if k in attrs for a in attrs[k] for t in terms]
     rec.monitor("query-builds")
     try:
@@ -390,7 +394,8 @@ def run_case(case, ctx):
             qp = [tuple(p[:2]) + (tuple(p[2]) if isinstance(p[2], list) else p[2],) for p in q["pairs"]]
         else:
             qp = (q["attrs"], q["terms"])
-        hit = run_query(ctx, models, graph, qp, mode, form, dict(case, queries=case["queries"][:qi + 1]), shared)
+        hit = run_query(ctx, models, graph, qp, mode, form,
+                        dict(case, queries=case["queries"][:qi + 1], kind_order="reversed" if qi % 2 else "canonical"), shared)
         rec.case(core.h([[enc(no_ids(s)) for s in specs], q]), bool(hit))
         rec.count("queries", "%s/%s/%s" % (mode, form, "+".join(sorted({p[0] for p in q["pairs"]})) if mode == "match"
                                           else "+".join(sorted(q["attrs"]))))
